@@ -96,15 +96,30 @@ package db
 //@   ensures[committed-only-if-every-statement-succeeded] result == nil ==> stmtFail == old(stmtFail)
 
 // ---- the certificate store's other statements (C02, C13): assumed semantics (A5), texts pinned
+//@ extern github.com/russross/meddler.QueryRow@db.(*AggSenderSQLStorage).GetLastSentCertificate (conn, dst, query, args)
+//@   requires typeIs(dst, *certificateInfo) && cast(dst, *certificateInfo) != nil
+//@   modifies *cast(dst, *certificateInfo)
 //@ func (a *AggSenderSQLStorage) GetLastSentCertificate (a)
 //@   props C02 C13
-//@   trusted
+//@   requires a != nil
 //@   modifies nothing
+//@   ensures[error-means-nothing] result1 != nil ==> result0 == nil
+//@   assert call:QueryRow arg0 == a.db && len(arg3) == 0
 //@   sqltext "SELECT * FROM certificate_info ORDER BY height DESC LIMIT 1;"
+// the last certificate's header, with its stored aggchain proof only when that certificate is in error (what an FEP
+// resend is built from, C02/C13): proved - a failed query yields nothing, a proof is handed out only together with a
+// header whose status is InError, and it is read for exactly that header's height. The statements' meaning is assumed
+// at the library call (A5).
+//@ extern github.com/russross/meddler.QueryRow@db.(*AggSenderSQLStorage).GetLastSentCertificateHeaderWithProofIfInError (conn, dst, query, args)
+//@   requires (typeIs(dst, *types.CertificateHeader) && cast(dst, *types.CertificateHeader) != nil) || (typeIs(dst, *types.Certificate) && cast(dst, *types.Certificate) != nil)
+//@   modifies *cast(dst, *types.CertificateHeader), *cast(dst, *types.Certificate)
 //@ func (a *AggSenderSQLStorage) GetLastSentCertificateHeaderWithProofIfInError (a, ctx)
 //@   props C02 C13
-//@   trusted
-//@   modifies nothing
+//@   requires a != nil && a.logger != nil && a.db != nil
+//@   modifies heap
+//@   ensures[error-means-nothing] result2 != nil ==> result0 == nil && result1 == nil
+//@   ensures[a-stored-proof-only-with-a-certificate-in-error] (result2 == nil && result1 != nil) ==> result0 != nil && result0.Status == agglayertypes.InError
+//@   assert call:QueryRow:1 len(arg3) == 1 && typeIs(arg3[0], uint64) && unbox(arg3[0], uint64) == certificateHeader.Height
 //@   sqltext "SELECT aggchain_proof FROM certificate_info WHERE height = $1;"
 //@   consttext "%s ORDER BY height DESC LIMIT 1;"
 // recording a certificate's new status (the status poll's write, C13; what the pending gate reads, C02): one UPDATE for
